@@ -356,7 +356,14 @@ impl Context {
                 Phase::Drop => unreachable!(),
             }
 
-            if run_until == RunUntil::PayDebt && !(cx.metrics.allocation_debt() > 0.0) {
+            // Having paid off our debt, we stop here, unless we are in `Phase::Sweep` with nothing
+            // left to sweep: then the next iteration only finishes the cycle, and stopping now would
+            // leave the collector parked in `Phase::Sweep` (with *no* debt if the sweep has just freed
+            // the last live `Gc`, since an empty arena reports zero debt).
+            if run_until == RunUntil::PayDebt
+                && !(cx.metrics.allocation_debt() > 0.0)
+                && !(cx.phase == Phase::Sweep && cx.sweep.is_none())
+            {
                 break;
             }
         }
